@@ -9,7 +9,16 @@ call (also when the call raises).  The caller's heap as seen by the snapshot (bu
 offsets, lists / tuples / objects as cells) is handed to Coq together with the observed set of changed objects;
 Coq (Corr/C15.v) runs the skeleton of the entry point on that heap and compares footprints, and re-derives the
 region reachable from the documented in-place parameters.  Python predicate: changed objects are a subset of
-that region (empty when nothing is documented as in place)."""
+that region (empty when nothing is documented as in place).
+
+Round 2: (a) the table covers the whole public surface (every public function / class of the non-backend modules is named
+in at least one configuration; option lists such as ranks, modes, fixed modes, coefficient lists are passed as ARGUMENTS so
+that they are snapshotted), orders 2-4, both dtypes already in the quick tier; (b) parafac / non_negative_parafac_hals /
+tucker with user initialisations are tied to the ORDER-GENERIC skeleton families of Model/Effects.v (parameters N, fixed
+modes, list lengths computed from the call), whose safety is proved for all parameter values; (c) mutator methods
+CPTensor.normalize() / TuckerTensor.normalize() are documented in-place receivers; (d) process_regularization_weights
+(found in round 2 to assign into the caller's coefficient lists, repaired by fix 58815dd) is tied to skeleton sk_prw;
+(e) seeded random option combinations of the anchored decompositions with user initialisations ("fuzz:<seed>")."""
 import contextlib, copy, io, random, sys, time, zlib
 import numpy as np
 from harness import common as C
@@ -20,7 +29,7 @@ From TLV Require Import Model.Effects Corr.C15."""
 # ============================================================================ snapshot machinery
 SCALARS = (int, float, bool, str, complex, type(None), np.generic)
 ATTR_ORDER = ["weights", "core", "factors", "projections", "shape", "rank"]
-BUF_CAP = 64      # model buffers are truncated to this many elements
+BUF_CAP = 24      # model buffers are truncated to this many elements (contents are synthetic; only identity and offsets matter)
 
 
 def is_scalar(x):
@@ -413,7 +422,7 @@ def entry_points(dtype=np.float64, seed=0):
         sp = [0 if v is None else v for v in sp]
         dg = [i for i in range(len(r)) if any(sp) and abs(sp[i]) + abs(r[i]) == 0]
         mx = sp.index(max(sp)) if sp else 0
-        return f"(KPrw {C.nat_list(nr)} {C.nat_list(ns)} {C.nat_list(dg)} {mx}%nat)"
+        return f"(KPrw {len(r)}%nat {C.nat_list(nr)} {C.nat_list(ns)} {C.nat_list(dg)} {mx}%nat)"
 
     PK = (pk_name, [0, 1, 2, 3])
     simple("parafac_init_tuple", lambda X, i, fm, m: parafac(X, R, n_iter_max=2, init=i, fixed_modes=fm, mask=m), lambda d: (d.X, (d.w, d.fs), None, None), skel=PK)
@@ -763,7 +772,128 @@ def entry_points(dtype=np.float64, seed=0):
     simple("tucker_regressor_fit_predict_twice", lambda X, y: (lambda m: (m.fit(X, y), m.predict(X), m.fit(X, y)))(TuckerRegressor([2, 2], random_state=sd, verbose=0, n_iter_max=3, reg_W=0.5)), lambda d: (d.X, d.y))
     simple("cp_plsr_transform_Y_then_predict", lambda X, Y, X2, Y2: (lambda m: (m.transform(X2, Y2), m.predict(X2), m.transform(X2), m.fit_transform(X, Y)))(CP_PLSR(2, random_state=sd).fit(X, Y)), lambda d: (d.X, d.Y2, d.X + 0.5, d.Y2 * 2))
     simple("robust_pca_mask_bool_regs", lambda X, m: robust_pca(X, mask=m, n_iter_max=4, reg_E=0.5, reg_J=0.5, verbose=0), lambda d: (d.X - 0.5, d.mask > 0))
+    # option lists (ranks, modes) handed over as ARGUMENTS: validation / truncation / negative-index normalisation work on them
+    simple("tensor_train_rank_list_truncated", lambda X, r: tensor_train(X, r), lambda d: (d.X, [1, 9, 9, 1]))
+    simple("tensor_train_matrix_rank_list_truncated", lambda Y, r: tensor_train_matrix(Y, r), lambda d: (d.rs.rand(2, 3, 2, 3).astype(dtype), [1, 9, 1]))
+    simple("tensor_ring_rank_list_truncated", lambda X, r: tensor_ring(X, r), lambda d: (d.X, [1, 4, 20, 1]))
+    simple("tensor_ring_rank_list_mode1", lambda X, r: tensor_ring(X, r, mode=1), lambda d: (d.X, [2, 1, 2, 2]))
+    simple("tt_cross_rank_list", lambda X, r: tensor_train_cross(X, r, random_state=sd), lambda d: (d.X, [1, 2, 2, 1]))
+    simple("tucker_rank_list_modes_list", lambda X, r, mo: (tucker(X, r, n_iter_max=2), partial_tucker(X, r[:2], modes=mo, n_iter_max=2)), lambda d: (d.X, [9, 2, 2], [2, 0]))
+    simple("tensordot_negative_modes_lists", lambda X, m, b: (tenalg.tensordot(X, X, modes=m, batched_modes=b), tenalg.tensordot(X, X, modes=m)), lambda d: (d.X, [-2], [-3]))
+    simple("tensordot_negative_modes_lists_einsum", _einsum(lambda X, m, b: tenalg.tensordot(X, X, modes=m, batched_modes=b)), lambda d: (d.X, [-2], [-3]))
+    simple("validate_rank_lists", lambda s, r1, r2, r3, fm: (tl.validate_tt_rank(s, r1), tl.validate_tt_rank(s, r1, allow_overparametrization=False), tl.validate_tr_rank(s, r2), tl.validate_tucker_rank(s, r3), tl.validate_tucker_rank(s, 0.7, fixed_modes=fm)),
+           lambda d: ([4, 3, 5], [1, 9, 9, 1], [2, 9, 9, 2], [9, 9, 9], [2, 0]))
+    simple("unfolding_modes_lists", lambda X, rm, cm: (matricize(X, rm, cm), tl.partial_unfold(X, 1, skip_begin=1)), lambda d: (d.X, [2, 0], [1]))
     return E
+
+
+# ============================================================================ option fuzzing of the anchored decompositions
+def fuzz_spec(fseed, dtype=np.float64):
+    """a random option combination of one anchored decomposition with a USER initialisation; deterministic in fseed
+    (configuration name "fuzz:<fseed>").  Arguments: (tensor, init, fixed_modes | sparsity list, mask | fixed_modes)."""
+    import tensorly as tl
+    from tensorly.decomposition import (parafac, randomised_parafac, non_negative_parafac, non_negative_parafac_hals,
+                                        constrained_parafac, tucker, non_negative_tucker, non_negative_tucker_hals, parafac2)
+    from tensorly.cp_tensor import CPTensor
+    from tensorly.tucker_tensor import TuckerTensor
+    from tensorly.parafac2_tensor import Parafac2Tensor
+    r = random.Random(fseed)
+    rs = np.random.RandomState(fseed % (2 ** 31))
+    E = entry_points(dtype, 0)        # only for the skeleton-name builders stored in the table
+    pk = E["parafac_init_tuple"]()["skel"]; hk = E["nn_parafac_hals_init"]()["skel"]; tk = E["tucker_init"]()["skel"]
+    algo = r.choice(["parafac", "parafac", "nn_parafac", "nn_parafac_hals", "nn_parafac_hals", "constrained", "tucker", "tucker",
+                     "nn_tucker", "nn_tucker_hals", "parafac2", "randomised_parafac"])
+    order = r.choice([2, 3, 3, 3, 4])
+    shape = tuple(r.randint(2, 4) for _ in range(order))
+    R = 2
+    X = (rs.rand(*shape) + 0.05).astype(dtype)
+    n_iter = r.choice([1, 2, 3, 8])
+    wkind = r.choice(["unit", "nonunit", "nonunit", "none"])
+    w = {"unit": np.ones(R, dtype=dtype), "nonunit": np.array([2.0, 0.5], dtype=dtype), "none": None}[wkind]
+    fs = [(rs.rand(sz, R) + 0.1).astype(dtype) for sz in shape]
+    fcont = r.choice([list, tuple])
+    ckind = r.choice(["tuple", "list", "obj"])
+    modes = list(range(order))
+    fixed = r.choice([None, None, [], sorted(r.sample(modes, r.randint(1, order))), tuple(sorted(r.sample(modes, r.randint(1, max(1, order - 1)))))])
+    mask = r.choice([None, None, (rs.rand(*shape) > 0.25).astype(dtype)])
+    quiet = dict(verbose=0)
+
+    def cp_init():
+        if ckind == "obj":
+            return CPTensor((np.ones(R, dtype=dtype) if w is None else w, list(fs)))
+        return (w, fcont(fs)) if ckind == "tuple" else [w, fcont(fs)]
+
+    skel, inplace = None, ()
+    if algo == "parafac":
+        opts = dict(n_iter_max=n_iter, normalize_factors=r.random() < 0.3, orthogonalise=r.choice([False, False, True, 2]),
+                    tol=r.choice([1e-8, 0, 1e-14]), l2_reg=r.choice([0, 0, 0.2]), linesearch=r.random() < 0.3,
+                    sparsity=r.choice([None, None, 0.2, 3]), return_errors=r.random() < 0.3,
+                    cvg_criterion=r.choice(["abs_rec_error", "rec_error", "bogus"]),
+                    callback=r.choice([None, None, lambda cp, e: False, _Raise(r.randint(1, 3))]))
+        fn = lambda X_, i, fm, m: parafac(X_, R, init=i, fixed_modes=fm, mask=m, **opts)
+        args = (X, cp_init(), fixed, mask); skel = pk
+    elif algo == "randomised_parafac":
+        opts = dict(n_iter_max=n_iter, n_samples=r.choice([4, 9]), random_state=fseed % 1000, tol=r.choice([1e-8, 0]), max_stagnation=r.choice([0, 20]))
+        fn = lambda X_, i: randomised_parafac(X_, R, init=i, **opts, **quiet)
+        args = (X, cp_init())
+    elif algo == "nn_parafac":
+        opts = dict(n_iter_max=n_iter, normalize_factors=r.random() < 0.4, tol=r.choice([1e-7, 0]), cvg_criterion=r.choice(["abs_rec_error", "rec_error", "bogus"]))
+        fn = lambda X_, i, fm, m: non_negative_parafac(X_, R, init=i, fixed_modes=fm, mask=m, **opts)
+        args = (X, cp_init(), fixed, mask)
+    elif algo == "nn_parafac_hals":
+        sc = r.choice([None, None, [r.choice([None, 0.1, 0.3]) for _ in modes], tuple(0.1 for _ in modes)])
+        if fixed is not None and order - 1 in fixed and r.random() < 0.5:
+            fixed = type(fixed)(m for m in fixed if m != order - 1)
+        opts = dict(n_iter_max=min(n_iter, 3), normalize_factors=r.random() < 0.4, tol=r.choice([1e-8, 0]),
+                    nn_modes=r.choice(["all", "all", set(r.sample(modes, r.randint(1, order))), None]), cvg_criterion=r.choice(["abs_rec_error", "rec_error", "bogus"]))
+        fn = lambda X_, i, sc_, fm: non_negative_parafac_hals(X_, R, init=i, sparsity_coefficients=sc_, fixed_modes=fm, **opts)
+        args = (X, cp_init(), sc, fixed); skel = hk
+    elif algo == "constrained":
+        cons = r.choice([dict(non_negative=True), dict(l1_reg=0.1), dict(l2_reg=0.2), dict(l2_square_reg=0.1), dict(unimodality=True), dict(normalize=True),
+                         dict(simplex=1.0), dict(normalized_sparsity=2), dict(soft_sparsity=1.0), dict(smoothness=0.1), dict(monotonicity=True),
+                         dict(hard_sparsity=2), dict(non_negative={0: True}, l1_reg={1: 0.1}), dict(l1_reg=[0.1] * order)])
+        opts = dict(n_iter_max=min(n_iter, 3), n_iter_max_inner=r.choice([1, 3]), cvg_criterion=r.choice(["abs_rec_error", "rec_error", "bogus"]), **cons)
+        fn = lambda X_, i, fm: constrained_parafac(X_, R, init=i, fixed_modes=fm, **opts)
+        args = (X, cp_init(), fixed)
+    elif algo in ("tucker", "nn_tucker", "nn_tucker_hals"):
+        rk = [2] * order
+        core = (rs.rand(*rk) + 0.1).astype(dtype)
+        tf = [(rs.rand(sz, 2) + 0.1).astype(dtype) for sz in shape]
+        if r.random() < 0.3 and algo != "tucker":
+            core, tf = -core, [-f for f in tf]
+        init = TuckerTensor((core, list(tf))) if ckind == "obj" else ((core, fcont(tf)) if ckind == "tuple" else [core, fcont(tf)])
+        if algo == "tucker":
+            opts = dict(n_iter_max=n_iter, tol=r.choice([1e-5, 0]))
+            ff = r.choice([None, None, None, sorted(r.sample(modes, r.randint(1, order - 1)))])
+            if ff is None:
+                fn = lambda X_, i, m: tucker(X_, rk, init=i, mask=m, **opts)
+                args = (X, init, mask); skel = tk
+            else:
+                fn = lambda X_, i, m, f_: tucker(X_, rk, init=i, mask=m, fixed_factors=f_, **opts)
+                args = (X, init, mask, ff)
+        elif algo == "nn_tucker":
+            opts = dict(n_iter_max=n_iter, tol=r.choice([1e-4, 0]), normalize_factors=r.random() < 0.4)
+            fn = lambda X_, i: non_negative_tucker(X_, rk, init=i, **opts)
+            args = (X, init)
+        else:
+            sc = r.choice([None, [r.choice([None, 0.1]) for _ in modes]])
+            opts = dict(n_iter_max=min(n_iter, 2), tol=r.choice([1e-8, 0]), normalize_factors=r.random() < 0.4, algorithm=r.choice(["fista", "active_set"]),
+                        core_sparsity_coefficient=r.choice([None, 0.1]))
+            fn = lambda X_, i, sc_, fm: non_negative_tucker_hals(X_, rk, init=i, sparsity_coefficients=sc_, fixed_modes=fm, **opts)
+            args = (X, init, sc, fixed)
+    else:   # parafac2
+        I = r.randint(2, 3); K = r.randint(3, 4)
+        slices = [(rs.rand(r.randint(3, 5), K) + 0.05).astype(dtype) for _ in range(I)]
+        A = (rs.rand(I, R) + 0.1).astype(dtype); B = (rs.rand(R, R) + 0.1).astype(dtype); Cm = (rs.rand(K, R) + 0.1).astype(dtype)
+        projs = [np.linalg.qr(rs.rand(sl.shape[0], R))[0].astype(dtype) for sl in slices]
+        p2 = (np.ones(R, dtype=dtype) if w is None else w, fcont([A, B, Cm]), fcont(projs))
+        init = Parafac2Tensor(p2) if ckind == "obj" else (p2 if ckind == "tuple" else list(p2))
+        opts = dict(n_iter_max=n_iter, normalize_factors=r.random() < 0.4, tol=r.choice([1e-8, 1e-13]), nn_modes=r.choice([None, None, [0], [0, 2], "all"]),
+                    linesearch=r.random() < 0.3, n_iter_parafac=r.choice([1, 3]), return_errors=r.random() < 0.5)
+        scont = r.choice([list, tuple])
+        fn = lambda sl, i: parafac2(sl, R, init=i, **opts)
+        args = (scont(slices), init)
+    return dict(fn=fn, args=args, inplace=set(inplace), skel=skel, ep=f"tensorly:fuzz:{algo}", algo=algo)
 
 
 # ============================================================================ running one configuration
@@ -774,10 +904,13 @@ ALL_VARIANTS = ["fresh", "transposed", "sliced", "strided"]
 
 def run_config(name, variant, dtype, seed):
     """-> dict(outcome, changed=[(oid, path, what)], heap, spec, allowed) or None if the configuration does not exist"""
-    E = entry_points(np.dtype(dtype).type, seed)
-    if name not in E:
-        return None
-    spec = E[name]()
+    if name.startswith("fuzz:"):
+        spec = fuzz_spec(int(name[5:]), np.dtype(dtype).type)
+    else:
+        E = entry_points(np.dtype(dtype).type, seed)
+        if name not in E:
+            return None
+        spec = E[name]()
     args = transform(tuple(spec["args"]), variant)
     heap = Heap(args)
     C.reset_backends()
@@ -817,13 +950,26 @@ def predicate(r):
     return None
 
 
+def corpus_cases():
+    """corpus/C15/*.json: configurations (table names or fuzz seeds) that caught a mutant or a past defect; they run first"""
+    import glob, json, os
+    out = []
+    for fn in sorted(glob.glob(os.path.join(C.VERIF, "corpus", "C15", "*.json"))):
+        try:
+            for e in json.load(open(fn)).get("cases", []):
+                out.append((e["config"], e.get("variant", "fresh"), e.get("dtype", "float64"), int(e.get("data_seed", 0))))
+        except Exception:
+            pass
+    return out
+
+
 def plan(tier, rng):
     names = list(entry_points(np.float64, 0).keys())
-    cases = []
+    cases = [c for c in corpus_cases() if c[0].startswith("fuzz:") or c[0] in names]
     if tier == "quick":
         for n in names:
             for v in (["transposed"] if n in HEAVY else QUICK_VARIANTS):
-                cases.append((n, v, "float64", 0))
+                cases.append((n, v, "float32" if v == "sliced" else "float64", 0))     # both dtypes already in the quick tier
     else:
         for n in names:
             for v in ALL_VARIANTS:
@@ -831,6 +977,9 @@ def plan(tier, rng):
                 cases.append((n, v, "float32", 1))
             for _ in range(2):
                 cases.append((n, rng.choice(ALL_VARIANTS), rng.choice(["float64", "float32"]), rng.randint(2, 10 ** 6)))
+    nf = 45 if tier == "quick" else 700
+    for _ in range(nf):
+        cases.append((f"fuzz:{rng.randint(0, 10 ** 9)}", rng.choice(ALL_VARIANTS), rng.choice(["float64", "float64", "float32"]), 0))
     return cases
 
 
@@ -875,6 +1024,8 @@ def run(chk):
         meta.append((name, variant, dtype, seed, r["outcome"], [f"{p} ({w})" for _, p, w in r["changed"]]))
         n_objs = len(r["heap"].objs)
         chk.count(key=(name, variant, dtype), nontrivial=n_objs > 0)
+        if name.startswith("fuzz:"):
+            chk.hist("fuzz_algorithm", r["spec"]["algo"]); chk.hist("fuzz_outcome", r["spec"]["algo"] + ":" + r["outcome"])
         chk.hist("outcome", r["outcome"]); chk.hist("variant", variant); chk.hist("dtype", dtype)
         sk = r["spec"]["skel"]
         chk.hist("modelled", (sk[0].__name__ if callable(sk[0]) else sk[0]) if sk else "footprint-only")
@@ -908,7 +1059,8 @@ def run(chk):
     chk.assumptions = ["the snapshot sees every caller-owned object: arrays (whole base buffer), lists, tuples, dicts, tensorly wrapper objects; "
                        "other Python objects (callables, RandomState instances) are outside the statement",
                        "a replaced container entry with a bit-identical value is not a change (the property compares with a deep copy)",
-                       "skeletons are hand-written abstractions of third-order, one-option-set runs; they are tied to the code only through footprints"]
+                       "skeletons are hand-written abstractions (one path per option set; parafac / HALS / tucker generic in the order, the number of "
+                       "sweeps and the list lengths); they are tied to the code only through footprints"]
     chk.trusted = ["NumPy base-buffer identity (ndarray.base chain) as the notion of buffer identity",
                    "aliasing skeletons of Model/Effects.v are modelled, not extracted from the source"]
     return chk.finish(CLASSIFIERS)
